@@ -1,5 +1,5 @@
 (* C20 — proofs.  Generic in the tables T (hypothesis tables_ok T = true). *)
-From Coq Require Import List NArith Bool Arith Lia.
+From Coq Require Import List NArith ZArith Bool Arith Lia.
 From Dae Require Import C20_Spec C20_Model C20_Check.
 From Dae.gen Require Import C20_ReloadPaths.
 Import ListNotations.
@@ -145,7 +145,7 @@ Lemma agent_step T who s p ps s' pre :
 Proof.
   intros [HL HM] [Hh Hm Hc Hf Hg Hpr Hrl Hwg Hwd Hmg Hmd Hj] Hex Hp E.
   unfold holders, mute_owed, history, has_deact, has_reset in *.
-  destruct s as [pe ac re su un no qu pr si wp ho mp prt dn rl ex tr].
+  destruct s as [pe ac re su un no qu pr si wp ho mp prt dn rl ex tr rts nr].
   destruct who; simpl in Hp; simpl in Hex; subst ex.
   - (* worker *)
     subst wp.
@@ -178,7 +178,7 @@ Proof.
   apply nth_split in E. destruct E as (l1 & l2 & E1 & E2).
   destruct C as [Hh Hm Hc Hf Hg Hpr Hrl Hwg Hwd Hmg Hmd Hj].
   unfold holders, mute_owed, history in *.
-  destruct s as [pe ac re su un no qu pr si wp ho mp prt dn rl ex tr].
+  destruct s as [pe ac re su un no qu pr si wp ho mp prt dn rl ex tr rts nr].
   simpl in *. subst si i.
   rewrite sumf_app, sumf_cons in Hh, Hm. rewrite forallb_app in Hj. simpl in Hj.
   destruct (t_cap T) as [|cap] eqn:Ecap; [lia|].
@@ -199,7 +199,7 @@ Proof.
   apply nth_split in E. destruct E as (l1 & l2 & E1 & E2).
   destruct C as [Hh Hm Hc Hf Hg Hpr Hrl Hwg Hwd Hmg Hmd Hj].
   unfold holders, mute_owed, history in *.
-  destruct s as [pe ac re su un no qu pr si wp ho mp prt dn rl ex tr].
+  destruct s as [pe ac re su un no qu pr si wp ho mp prt dn rl ex tr rts nr].
   simpl in *. subst rl r.
   rewrite sumf_app, sumf_cons in Hh, Hm. rewrite forallb_app in Hrl. simpl in Hrl.
   destruct y as [d|[|p ps]].
@@ -270,12 +270,16 @@ Proof.
   - unfold end_supp. destruct (supp s); [reflexivity|]. destruct (Nat.eqb n 0); reflexivity.
 Qed.
 
+Ltac ret_cases :=
+  unfold ret_step;
+  repeat match goal with |- context [match ?x with _ => _ end] => destruct x end.
+
 Lemma step_inv T s a : tables_ok T = true -> Inv s -> Inv (step T s a).
 Proof.
   intros HT [H C]. assert (Keep : Inv s) by (split; assumption).
   unfold step. destruct (exited s) eqn:Hex; [exact Keep|].
   specialize (C eq_refl).
-  destruct a as [b|i|k| |k| |d|r| ].
+  destruct a as [b|i|k| |k| |d|p|d|n|r| ].
   - (* ASignal *)
     destruct H as [HL HM]. destruct C as [Hh Hm Hc Hf Hg Hpr Hrl Hwg Hwd Hmg Hmd Hj].
     unfold holders, mute_owed in *.
@@ -310,8 +314,18 @@ Proof.
     exact (agent_step T false s p ps s' pre H C Hex Ew E).
   - (* ARetire *)
     destruct H as [HL HM]. destruct C as [Hh Hm Hc Hf Hg Hpr Hrl Hwg Hwd Hmg Hmd Hj].
-    unfold holders, mute_owed in *.
-    split; [split; assumption|]. intros _. constructor; fin_field Hrl Hpr; rewrite ?upd_length; try assumption.
+    unfold holders, mute_owed in *. ret_cases; try exact Keep;
+    (split; [split; assumption|]); intros _; constructor; fin_field Hrl Hpr; rewrite ?upd_length; try assumption.
+  - (* AEnvRetire *)
+    destruct H as [HL HM]. destruct C as [Hh Hm Hc Hf Hg Hpr Hrl Hwg Hwd Hmg Hmd Hj].
+    split; [split; assumption|]. intros _. constructor; assumption.
+  - (* ASessionsEnd *)
+    destruct H as [HL HM]. destruct C as [Hh Hm Hc Hf Hg Hpr Hrl Hwg Hwd Hmg Hmd Hj].
+    destruct (nth_error (rets s) d); [|exact Keep].
+    split; [split; assumption|]. intros _. constructor; assumption.
+  - (* AAdvance *)
+    destruct H as [HL HM]. destruct C as [Hh Hm Hc Hf Hg Hpr Hrl Hwg Hwd Hmg Hmd Hj].
+    split; [split; assumption|]. intros _. constructor; assumption.
   - (* AReleaser *)
     destruct (rel_step_inv T s r H C) as [H1 H2]. split; auto.
   - (* ATick *)
@@ -360,7 +374,7 @@ Lemma J_step T s a : tables_ok T = true -> Inv s -> J s -> J (step T s a).
 Proof.
   intros HT [H C] HJ. unfold step. destruct (exited s) eqn:Hex; [exact HJ|].
   specialize (C eq_refl). unfold J in *.
-  destruct a as [b|i|k| |k| |d|r| ]; simpl.
+  destruct a as [b|i|k| |k| |d|p|d|n|r| ]; simpl.
   - rewrite forallb_app, HJ. reflexivity.
   - destruct (sig_step_inv T s i (tables_cap T HT) H C) as [_ H2]. apply H2.
   - destruct (w_prog s); [|exact HJ]. destruct (queue s); [exact HJ|].
@@ -373,6 +387,9 @@ Proof.
   - destruct (m_prog s) as [|p ps]; [exact HJ|]. unfold prog_step.
     destruct (exec_prim T s p) as [s' pre] eqn:E. simpl.
     rewrite (exec_prim_sigs _ _ _ _ _ E). exact HJ.
+  - ret_cases; exact HJ.
+  - exact HJ.
+  - destruct (nth_error (rets s) d); exact HJ.
   - exact HJ.
   - rewrite rel_step_sigs. exact HJ.
   - exact HJ.
@@ -405,7 +422,7 @@ Qed.
 Lemma step_Q T s a : Q T s -> Q T (step T s a).
 Proof.
   intro H. unfold step. destruct (exited s); [exact H|].
-  destruct a as [b|i|k| |k| |d|r| ].
+  destruct a as [b|i|k| |k| |d|p|d|n|r| ].
   - exact H.
   - unfold sig_step. destruct (nth_error (sigs s) i) as [pc|]; [|exact H].
     destruct pc; try exact H.
@@ -420,7 +437,10 @@ Proof.
     destruct (nth_error (t_main T) k); exact H.
   - destruct (m_prog s) as [|p ps]; [exact H|]. unfold prog_step.
     destruct (exec_prim T s p) as [s' pre] eqn:E. exact (exec_prim_Q _ _ _ _ _ H E).
+  - ret_cases; exact H.
   - exact H.
+  - destruct (nth_error (rets s) d); exact H.
+  - unfold Q in *. simpl. lia.
   - unfold rel_step. destruct (nth_error (releasers s) r) as [[d0|[|p ps]]|]; try exact H.
     + destruct (nth d0 (dones s) false); exact H.
     + unfold prog_step. destruct (exec_prim T s p) as [s' pre] eqn:E.
@@ -468,11 +488,211 @@ Lemma nth_error_forallb {A} (f : A -> bool) l i x :
   forallb f l = true -> nth_error l i = Some x -> f x = true.
 Proof. intros H E. rewrite forallb_forall in H. apply H. eapply nth_error_In; eassumption. Qed.
 
+(* ------------------------------------------------------------------ retirement goroutines *)
+Definition rd_rel (r : retirement) (b : bool) : Prop := rt_pc_of r = RtDone -> b = true.
+Definition rt_ok (T : tables) (no : N) (r : retirement) : Prop :=
+  (0 <= rt_budget r <= Z.max 0 (t_budget_total T))%Z /\
+  rt_pc_of r <> RtWait None /\
+  (forall dl, rt_pc_of r = RtWait (Some dl) -> (dl <= no + Z.to_N (rt_budget r))%N).
+Definition R (T : tables) (s : state) : Prop :=
+  Forall2 rd_rel (rets s) (dones s) /\ Forall (rt_ok T (now s)) (rets s).
+
+Lemma Forall2_upd_l {A B} (P : A -> B -> Prop) l1 l2 i r x :
+  Forall2 P l1 l2 -> nth_error l1 i = Some r -> (forall y, P r y -> P x y) ->
+  Forall2 P (upd l1 i x) l2.
+Proof.
+  intros H. revert i. induction H as [|a b l m Hab H IH]; intros i E Hx; [destruct i; discriminate|].
+  destruct i as [|i]; simpl in *.
+  - inversion E; subst. constructor; auto.
+  - constructor; auto.
+Qed.
+
+Lemma Forall2_upd_both {A B} (P : A -> B -> Prop) l1 l2 i x y :
+  Forall2 P l1 l2 -> P x y -> Forall2 P (upd l1 i x) (upd l2 i y).
+Proof.
+  intros H Hxy. revert i. induction H as [|a b l m Hab H IH]; intros i; simpl; [constructor|].
+  destruct i as [|i]; constructor; auto.
+Qed.
+
+Lemma Forall_upd {A} (P : A -> Prop) l i x : Forall P l -> P x -> Forall P (upd l i x).
+Proof.
+  intros H Hx. revert i. induction H as [|a l Ha H IH]; intros i; simpl; [constructor|].
+  destruct i as [|i]; constructor; auto.
+Qed.
+
+Lemma Forall2_nth {A B} (P : A -> B -> Prop) l1 l2 i r :
+  Forall2 P l1 l2 -> nth_error l1 i = Some r -> exists b, nth_error l2 i = Some b /\ P r b.
+Proof.
+  intros H. revert i. induction H as [|a b l m Hab H IH]; intros i E; [destruct i; discriminate|].
+  destruct i as [|i]; simpl in *.
+  - inversion E; subst. exists b. split; auto.
+  - apply IH; assumption.
+Qed.
+
+Lemma F2_length {A B} (P : A -> B -> Prop) l1 l2 : Forall2 P l1 l2 -> length l1 = length l2.
+Proof. intro H. induction H; simpl; congruence. Qed.
+
+Lemma nth_of_nth_error {A} (l : list A) i x d : nth_error l i = Some x -> nth i l d = x.
+Proof. revert i; induction l; destruct i; simpl; intro H; try discriminate; [inversion H; reflexivity | auto]. Qed.
+
+Lemma nth_error_lt {A} (l : list A) i : i < length l -> exists x, nth_error l i = Some x.
+Proof.
+  revert i; induction l; intros i H; simpl in *; [lia|].
+  destruct i; [eexists; reflexivity | apply IHl; lia].
+Qed.
+
+Lemma nth_error_some_lt {A} (l : list A) i x : nth_error l i = Some x -> i < length l.
+Proof. intro H. apply nth_error_Some. rewrite H. discriminate. Qed.
+
+Lemma nth_upd_same {A} (l : list A) i x d : i < length l -> nth i (upd l i x) d = x.
+Proof. revert i; induction l; intros i H; simpl in *; [lia|]. destruct i; simpl; [reflexivity | apply IHl; lia]. Qed.
+
+Lemma nth_upd_true l i j : nth j l false = true -> nth j (upd l i true) false = true.
+Proof.
+  revert i j; induction l; intros i j H; simpl in *; [destruct j; discriminate|].
+  destruct i, j; simpl in *; auto.
+Qed.
+
+Lemma cancel_last_cons r l :
+  cancel_last (r :: l) = match l with [] => [rt_cancel r] | _ => r :: cancel_last l end.
+Proof. destruct l; reflexivity. Qed.
+
+Lemma cancel_last_F2 l m : Forall2 rd_rel l m -> Forall2 rd_rel (cancel_last l) m.
+Proof.
+  intro H. induction H as [|a b l m Hab H IH]; [constructor|].
+  rewrite cancel_last_cons. destruct l as [|a' l'].
+  - inversion H; subst. constructor; [exact Hab | constructor].
+  - constructor; assumption.
+Qed.
+
+Lemma cancel_last_F (P : retirement -> Prop) l :
+  (forall r, P r -> P (rt_cancel r)) -> Forall P l -> Forall P (cancel_last l).
+Proof.
+  intros HP H. induction H as [|a l Ha H IH]; [constructor|].
+  rewrite cancel_last_cons. destruct l as [|a' l']; constructor; auto.
+Qed.
+
+Lemma cancel_last_sumf (f : retirement -> nat) l :
+  (forall r, f (rt_cancel r) = f r) -> sumf f (cancel_last l) = sumf f l.
+Proof.
+  intro Hf. induction l as [|a l IH]; [reflexivity|].
+  rewrite cancel_last_cons. destruct l as [|a' l'].
+  - rewrite !sumf_cons, Hf. reflexivity.
+  - rewrite !sumf_cons, IH. rewrite !sumf_cons. reflexivity.
+Qed.
+
+Lemma timer_armed_total g w : guard_total g = true -> (0 <= w)%Z -> timer_armed g w = true.
+Proof. destruct g; simpl; intros H Hw; try discriminate; [reflexivity | apply Z.leb_le; exact Hw]. Qed.
+
+Lemma remaining_budget_range B e z : (0 <= remaining_budget B e z <= Z.max 0 B)%Z.
+Proof.
+  unfold remaining_budget.
+  destruct (Z.leb_spec B 0); [lia|]. destruct z; [lia|].
+  destruct (Z.ltb_spec (B - Z.of_N e) 0); lia.
+Qed.
+
+Lemma rt_ok_mono T no no' r : (no <= no')%N -> rt_ok T no r -> rt_ok T no' r.
+Proof.
+  intros Hn (H1 & H2 & H3). split; [exact H1|]. split; [exact H2|].
+  intros dl E. specialize (H3 dl E). lia.
+Qed.
+
+Lemma rt_ok_all_mono T no no' l : (no <= no')%N -> Forall (rt_ok T no) l -> Forall (rt_ok T no') l.
+Proof. intros Hn H. eapply Forall_impl; [|exact H]. intros r Hr. eapply rt_ok_mono; eassumption. Qed.
+
+Lemma tables_guard T : tables_ok T = true -> guard_total (t_timer_guard T) = true.
+Proof. unfold tables_ok. intro H. bool_hyps. assumption. Qed.
+
+Lemma exec_prim_R T s p s' pre : R T s -> exec_prim T s p = (s', pre) -> R T s'.
+Proof.
+  intros H E. destruct p; simpl in E;
+    try (inversion E; subst s' pre; exact H).
+  - inversion E; subst s' pre. unfold end_supp. destruct (supp s) as [|n]; [exact H|].
+    destruct (Nat.eqb n 0); exact H.
+  - destruct (fst (progress s)); inversion E; subst s' pre; exact H.
+  - inversion E; subst s' pre. destruct H as [H1 H2]. unfold R. simpl. split.
+    + apply Forall2_app; [apply cancel_last_F2; exact H1|].
+      constructor; [intro X; discriminate X | constructor].
+    + apply Forall_app. split.
+      * apply cancel_last_F; [|exact H2]. intros r Hr. exact Hr.
+      * constructor; [|constructor]. split; [apply remaining_budget_range|].
+        split; [discriminate|]. intros dl X; discriminate X.
+  - destruct (pend_ret s); inversion E; subst s' pre; exact H.
+Qed.
+
+Lemma ret_step_R T s d : guard_total (t_timer_guard T) = true -> R T s -> R T (ret_step T s d).
+Proof.
+  intros HG [H1 H2]. unfold ret_step.
+  destruct (nth_error (rets s) d) as [r|] eqn:E; [|split; assumption].
+  assert (Hr : rt_ok T (now s) r).
+  { rewrite Forall_forall in H2. apply H2. eapply nth_error_In; eassumption. }
+  destruct Hr as (B1 & B2 & B3).
+  destruct (rt_pc_of r) as [|dl| |] eqn:Epc.
+  - destruct (rt_abort r || negb (rt_overlap r) || Nat.eqb (rt_sessions r) 0).
+    + split; simpl.
+      * eapply Forall2_upd_l; [exact H1 | exact E |]. intros y _ X; discriminate X.
+      * apply Forall_upd; [exact H2|]. split; [exact B1|]. split; [discriminate|]. intros dl X; discriminate X.
+    + rewrite (timer_armed_total _ _ HG (proj1 B1)). split; simpl.
+      * eapply Forall2_upd_l; [exact H1 | exact E |]. intros y _ X; discriminate X.
+      * apply Forall_upd; [exact H2|]. split; [exact B1|]. split; [discriminate|].
+        intros dl X. simpl in X. inversion X. subst dl. simpl. apply N.le_refl.
+  - destruct (rt_cancelled r || rt_idle r || match dl with Some t => (t <=? now s)%N | None => false end);
+      [|split; assumption].
+    split; simpl.
+    + eapply Forall2_upd_l; [exact H1 | exact E |]. intros y _ X; discriminate X.
+    + apply Forall_upd; [exact H2|]. split; [exact B1|]. split; [discriminate|]. intros dl' X; discriminate X.
+  - split; simpl.
+    + apply Forall2_upd_both; [exact H1|]. intros _. reflexivity.
+    + apply Forall_upd; [exact H2|]. split; [exact B1|]. split; [discriminate|]. intros dl' X; discriminate X.
+  - split; assumption.
+Qed.
+
+Lemma R_step T s a : tables_ok T = true -> R T s -> R T (step T s a).
+Proof.
+  intros HT H. unfold step. destruct (exited s); [exact H|].
+  destruct a as [b|i|k| |k| |d|p|d|n|r| ].
+  - exact H.
+  - unfold sig_step. destruct (nth_error (sigs s) i) as [pc|]; [|exact H].
+    destruct pc; try exact H.
+    + destruct (pending s); exact H.
+    + destruct (Nat.ltb (length (queue s)) (t_cap T)); exact H.
+    + unfold end_supp. destruct (supp s) as [|n]; [exact H|]. destruct (Nat.eqb n 0); exact H.
+  - destruct (w_prog s); [|exact H]. destruct (queue s); [exact H|].
+    destruct (nth_error (t_worker T) k); exact H.
+  - destruct (w_prog s) as [|p ps]; [exact H|]. unfold prog_step.
+    destruct (exec_prim T s p) as [s' pre] eqn:E. exact (exec_prim_R _ _ _ _ _ H E).
+  - destruct (m_prog s); [|exact H]. destruct (reloading s); [|exact H].
+    destruct (nth_error (t_main T) k); exact H.
+  - destruct (m_prog s) as [|p ps]; [exact H|]. unfold prog_step.
+    destruct (exec_prim T s p) as [s' pre] eqn:E. exact (exec_prim_R _ _ _ _ _ H E).
+  - apply ret_step_R; [apply tables_guard; exact HT | exact H].
+  - exact H.
+  - destruct (nth_error (rets s) d) as [r|] eqn:E; [|exact H]. destruct H as [H1 H2]. split; simpl.
+    + eapply Forall2_upd_l; [exact H1 | exact E |]. intros y Hy. exact Hy.
+    + apply Forall_upd; [exact H2|].
+      rewrite Forall_forall in H2. exact (H2 r (nth_error_In _ _ E)).
+  - destruct H as [H1 H2]. split; [exact H1|]. simpl. eapply rt_ok_all_mono; [|exact H2]. lia.
+  - unfold rel_step. destruct (nth_error (releasers s) r) as [[d0|[|p ps]]|]; try exact H.
+    + destruct (nth d0 (dones s) false); exact H.
+    + unfold prog_step. destruct (exec_prim T s p) as [s' pre] eqn:E.
+      exact (exec_prim_R _ _ _ _ _ H E).
+  - destruct H as [H1 H2]. split; [exact H1|]. simpl. eapply rt_ok_all_mono; [|exact H2]. lia.
+Qed.
+
+Lemma init_R T : R T init_state.
+Proof. split; constructor. Qed.
+
+Lemma run_from_R T s sched : tables_ok T = true -> R T s -> R T (run_from T s sched).
+Proof.
+  intro HT. revert s. induction sched as [|a l IH]; intros s H; [exact H|].
+  simpl. apply IH. apply R_step; assumption.
+Qed.
+
 (* ------------------------------------------------------------------ never wedged: a measure *)
 Definition weight (M : nat) (p : prim) : nat :=
   match p with
   | PReleaseAfterRetirement => 7
-  | PStartRetirement => 2
+  | PStartRetirement => 5
   | PBeginHandoff => S M
   | _ => 1
   end.
@@ -506,15 +726,37 @@ Definition sig_w (W : nat) (pc : sigpc) : nat :=
   | SAccepted | SRefused => 0
   end.
 Definition rs_w (r : rstate) : nat := match r with RWait _ => 5 | RRun l => length l end.
-Definition bw (b : bool) : nat := if b then 0 else 1.
+Definition rt_w (no : N) (r : retirement) : nat :=
+  match rt_pc_of r with
+  | RtInit => 4
+  | RtWait (Some dl) => if (dl <=? no)%N then 2 else 3
+  | RtWait None => 2
+  | RtTail => 1
+  | RtDone => 0
+  end.
+
+Lemma rt_sum_cancel no l : sumf (rt_w no) (cancel_last l) = sumf (rt_w no) l.
+Proof. apply cancel_last_sumf. intro r. reflexivity. Qed.
+
+Lemma rt_w_mono no no' r : (no <= no')%N -> rt_w no' r <= rt_w no r.
+Proof.
+  intro H. unfold rt_w. destruct (rt_pc_of r) as [|[dl|]| |]; try lia.
+  destruct (N.leb_spec dl no); destruct (N.leb_spec dl no'); lia.
+Qed.
+
+Lemma rt_sum_mono no no' l : (no <= no')%N -> sumf (rt_w no') l <= sumf (rt_w no) l.
+Proof.
+  intro H. induction l as [|r l IH]; [rewrite !sumf_nil; lia|].
+  rewrite !sumf_cons. pose proof (rt_w_mono no no' r H). lia.
+Qed.
 
 Definition mu (W M : nat) (s : state) : nat :=
   sumf (sig_w W) (sigs s) + length (queue s) * W + wsum M (w_prog s) + handoff s * M
-  + wsum M (m_prog s) + sumf rs_w (releasers s) + sumf bw (dones s).
+  + wsum M (m_prog s) + sumf rs_w (releasers s) + sumf (rt_w (now s)) (rets s).
 
 Ltac mu_fin :=
   simpl; rewrite ?upd_app_len; unfold mu; simpl;
-  rewrite ?sumf_app, ?sumf_cons, ?sumf_nil, ?app_length, ?wsum_app, ?Nat.mul_add_distr_r; simpl;
+  rewrite ?sumf_app, ?rt_sum_cancel, ?sumf_cons, ?sumf_nil, ?app_length, ?wsum_app, ?Nat.mul_add_distr_r; simpl;
   try lia.
 
 Lemma mu_sig W M T s i pc :
@@ -523,7 +765,7 @@ Lemma mu_sig W M T s i pc :
 Proof.
   intros E Hd. unfold sig_step. rewrite E.
   apply nth_split in E. destruct E as (l1 & l2 & E1 & E2).
-  destruct s as [pe ac re su un no qu pr si wp ho mp prt dn rl ex tr].
+  destruct s as [pe ac re su un no qu pr si wp ho mp prt dn rl ex tr rts nr].
   simpl in *. subst si i.
   destruct pc as [b|b|b| | |f| | ]; try discriminate; unfold end_supp; simpl;
     try (destruct pe); try (destruct (Nat.ltb (length qu) (t_cap T)));
@@ -535,20 +777,11 @@ Lemma mu_agent W M T who s p ps s' pre :
   mu W M (set_prog who (pre ++ ps) s') < mu W M s.
 Proof.
   intros Hp E.
-  destruct s as [pe ac re su un no qu pr si wp ho mp prt dn rl ex tr].
+  destruct s as [pe ac re su un no qu pr si wp ho mp prt dn rl ex tr rts nr].
   destruct who; simpl in Hp; subst;
     destruct p; simpl in E; unfold end_supp in E; simpl in E;
     repeat match type of E with context [match ?x with _ => _ end] => destruct x end;
     inversion E; subst s' pre; clear E; mu_fin.
-Qed.
-
-Lemma bw_upd dn d :
-  d < length dn -> nth d dn false = false -> sumf bw (upd dn d true) + 1 = sumf bw dn.
-Proof.
-  revert d. induction dn as [|x dn IH]; intros d Hd Hn; simpl in *; [lia|].
-  destruct d as [|d]; rewrite !sumf_cons.
-  - subst x. simpl. lia.
-  - rewrite <- (IH d); [lia | lia | exact Hn].
 Qed.
 
 Lemma forallb_false_nth {A} (f : A -> bool) l :
@@ -560,11 +793,46 @@ Proof.
   - intros _. exists 0, y. split; [reflexivity | assumption].
 Qed.
 
-Lemma mu_rel W M T s r y :
-  CInv s -> exited s = false -> nth_error (releasers s) r = Some y -> rs_done y = false ->
+Lemma mu_ret W M T s d r :
+  R T s -> exited s = false -> nth_error (rets s) d = Some r -> rt_pc_of r <> RtDone ->
   exists a, is_signal a = false /\ mu W M (step T s a) < mu W M s.
 Proof.
-  intros C Hex E Hd.
+  intros [H1 H2] Hex E Hnd.
+  assert (Hr : rt_ok T (now s) r).
+  { rewrite Forall_forall in H2. apply H2. eapply nth_error_In; eassumption. }
+  destruct Hr as (_ & B2 & _).
+  apply nth_split in E. destruct E as (l1 & l2 & E1 & E2).
+  destruct s as [pe ac re su un no qu pr si wp ho mp prt dn rl ex tr rts nr].
+  simpl in *. subst rts d ex.
+  destruct r as [pc ab ov B se idl can]. simpl in *.
+  destruct pc as [|[dl|]| |]; try congruence.
+  - exists (ARetire (length l1)). split; [reflexivity|].
+    unfold step, ret_step; simpl. rewrite nth_error_mid. simpl.
+    destruct (ab || negb ov || Nat.eqb se 0); [|destruct (timer_armed (t_timer_guard T) B)];
+      unfold set_rt_pc; mu_fin; unfold rt_w; simpl;
+      try (destruct (N.leb (no + Z.to_N B) no)); lia.
+  - destruct (can || idl || (dl <=? no)%N) eqn:Ec.
+    + exists (ARetire (length l1)). split; [reflexivity|].
+      unfold step, ret_step; simpl. rewrite nth_error_mid. simpl. rewrite Ec.
+      unfold set_rt_pc; mu_fin; unfold rt_w; simpl. destruct (N.leb dl no); lia.
+    + apply orb_false_iff in Ec. destruct Ec as [_ Ec].
+      exists (AAdvance (dl - no)). split; [reflexivity|].
+      unfold step; simpl. unfold mu; simpl. rewrite !sumf_app, !sumf_cons.
+      assert (Hle : (no <= no + (dl - no))%N) by lia.
+      pose proof (rt_sum_mono _ _ l1 Hle). pose proof (rt_sum_mono _ _ l2 Hle).
+      unfold rt_w at 2 5. simpl. rewrite Ec.
+      assert (E3 : (dl <=? no + (dl - no))%N = true) by (apply N.leb_le; lia).
+      rewrite E3. lia.
+  - exists (ARetire (length l1)). split; [reflexivity|].
+    unfold step, ret_step; simpl. rewrite nth_error_mid. simpl.
+    unfold set_rt_pc; mu_fin.
+Qed.
+
+Lemma mu_rel W M T s r y :
+  R T s -> CInv s -> exited s = false -> nth_error (releasers s) r = Some y -> rs_done y = false ->
+  exists a, is_signal a = false /\ mu W M (step T s a) < mu W M s.
+Proof.
+  intros HR C Hex E Hd.
   pose proof (nth_error_forallb _ _ _ _ (ci_rl _ C) E) as Hy.
   destruct y as [d|[|p ps]]; [| discriminate |].
   - (* waiting *)
@@ -572,15 +840,20 @@ Proof.
     destruct (nth d (dones s) false) eqn:En.
     + exists (AReleaser r). split; [reflexivity|]. unfold step, rel_step. rewrite Hex, E, En.
       apply nth_split in E. destruct E as (l1 & l2 & E1 & E2).
-      destruct s as [pe ac re su un no qu pr si wp ho mp prt dn rl ex tr].
+      destruct s as [pe ac re su un no qu pr si wp ho mp prt dn rl ex tr rts nr].
       simpl in *. subst rl r. mu_fin.
-    + exists (ARetire d). split; [reflexivity|]. unfold step. rewrite Hex.
-      pose proof (bw_upd _ _ Hy En). unfold mu. simpl. lia.
+    + destruct HR as [H1 H2].
+      assert (Hlt : d < length (rets s)) by (rewrite (F2_length _ _ _ H1); exact Hy).
+      destruct (nth_error_lt _ _ Hlt) as [r0 E0].
+      destruct (Forall2_nth _ _ _ _ _ H1 E0) as (b0 & Eb & Hb).
+      rewrite (nth_of_nth_error _ _ _ false Eb) in En. subst b0.
+      apply (mu_ret W M T s d r0); [split; assumption | exact Hex | exact E0 |].
+      intro X. specialize (Hb X). discriminate Hb.
   - (* running clearReloadPending *)
     exists (AReleaser r). split; [reflexivity|]. unfold step, rel_step. rewrite Hex, E.
     unfold prog_step.
     apply nth_split in E. destruct E as (l1 & l2 & E1 & E2).
-    destruct s as [pe ac re su un no qu pr si wp ho mp prt dn rl ex tr].
+    destruct s as [pe ac re su un no qu pr si wp ho mp prt dn rl ex tr rts nr].
     simpl in *. subst rl r. apply andb_prop in Hy. destruct Hy as [Hy _].
     destruct p; try discriminate; simpl; unfold end_supp; simpl;
       try (destruct su as [|su]; [|destruct (Nat.eqb su 0)]);
@@ -588,10 +861,10 @@ Proof.
 Qed.
 
 Lemma progress_step T s :
-  tables_ok T = true -> CInv s -> exited s = false -> settled s = false ->
+  tables_ok T = true -> R T s -> CInv s -> exited s = false -> settled s = false ->
   exists a, is_signal a = false /\ mu (Wmax T) (Mmax T) (step T s a) < mu (Wmax T) (Mmax T) s.
 Proof.
-  intros HT C Hex Hs.
+  intros HT HR C Hex Hs.
   destruct (forallb sig_done (sigs s)) eqn:E1.
   2:{ destruct (forallb_false_nth _ _ E1) as (i & pc & H1 & H2).
       exists (ASig i). split; [reflexivity|]. unfold step. rewrite Hex. eapply mu_sig; eassumption. }
@@ -624,23 +897,24 @@ Proof.
 Qed.
 
 Lemma no_wedge_from T :
-  tables_ok T = true -> forall n s, Inv s -> mu (Wmax T) (Mmax T) s < n ->
+  tables_ok T = true -> forall n s, Inv s -> R T s -> mu (Wmax T) (Mmax T) s < n ->
   exists sched' : list action,
     forallb (fun a => negb (is_signal a)) sched' = true /\
     let s' := run_from T s sched' in
     exited s' = true \/
     (settled s' = true /\ pending s' = false /\ supp s' = 0 /\ active s' = false /\ reloading s' = false).
 Proof.
-  intros HT n. induction n as [|n IH]; intros s HI Hlt; [lia|].
+  intros HT n. induction n as [|n IH]; intros s HI HR Hlt; [lia|].
   destruct (exited s) eqn:Hex.
   { exists []. split; [reflexivity|]. left. exact Hex. }
   destruct HI as [H C]. pose proof (C Hex) as C'.
   destruct (settled s) eqn:Hs.
   { exists []. split; [reflexivity|]. right. split; [exact Hs|].
     apply settled_free_inv; assumption. }
-  destruct (progress_step T s HT C' Hex Hs) as (a & Ha & Hmu).
+  destruct (progress_step T s HT HR C' Hex Hs) as (a & Ha & Hmu).
   destruct (IH (step T s a)) as (l & Hl & Hend).
   - apply step_inv; [assumption | split; assumption].
+  - apply R_step; assumption.
   - lia.
   - exists (a :: l). split; [simpl; rewrite Ha, Hl; reflexivity|]. exact Hend.
 Qed.
@@ -655,7 +929,7 @@ Lemma C20_no_wedge_proof :
 Proof.
   intros T sched HT.
   destruct (no_wedge_from T HT (S (mu (Wmax T) (Mmax T) (run T sched))) (run T sched)
-              (run_inv T sched HT) (Nat.lt_succ_diag_r _)) as (l & Hl & Hend).
+              (run_inv T sched HT) (run_from_R T _ sched HT (init_R T)) (Nat.lt_succ_diag_r _)) as (l & Hl & Hend).
   exists l. split; [exact Hl|]. unfold run. rewrite run_from_app. exact Hend.
 Qed.
 
@@ -805,6 +1079,157 @@ Lemma C20_nonvacuous_proof :
       settled s = true /\ pending s = false /\ history s = [EvAccept; EvMute; EvRelease; EvUnmute]).
 Proof. vm_compute. repeat split; reflexivity. Qed.
 
+(* ------------------------------------------------------------------ retirement terminates *)
+Lemma ret_step_rec T pe ac re su un no qu pr si wp ho mp prt dn rl tr l1 r l2 nr :
+  step T (Build_state pe ac re su un no qu pr si wp ho mp prt dn rl false tr (l1 ++ r :: l2) nr)
+         (ARetire (length l1)) =
+  match rt_pc_of r with
+  | RtInit =>
+      if rt_abort r || negb (rt_overlap r) || Nat.eqb (rt_sessions r) 0
+      then Build_state pe ac re su un no qu pr si wp ho mp prt dn rl false tr (l1 ++ set_rt_pc RtTail r :: l2) nr
+      else Build_state pe ac re su un no qu pr si wp ho mp prt dn rl false tr
+             (l1 ++ set_rt_pc (RtWait (if timer_armed (t_timer_guard T) (rt_budget r)
+                                       then Some (no + Z.to_N (rt_budget r))%N else None)) r :: l2) nr
+  | RtWait dl =>
+      if rt_cancelled r || rt_idle r || match dl with Some t => (t <=? no)%N | None => false end
+      then Build_state pe ac re su un no qu pr si wp ho mp prt dn rl false tr (l1 ++ set_rt_pc RtTail r :: l2) nr
+      else Build_state pe ac re su un no qu pr si wp ho mp prt dn rl false tr (l1 ++ r :: l2) nr
+  | RtTail => Build_state pe ac re su un no qu pr si wp ho mp prt (upd dn (length l1) true) rl false tr
+                (l1 ++ set_rt_pc RtDone r :: l2) nr
+  | RtDone => Build_state pe ac re su un no qu pr si wp ho mp prt dn rl false tr (l1 ++ r :: l2) nr
+  end.
+Proof.
+  unfold step, ret_step; simpl. rewrite nth_error_mid.
+  destruct (rt_pc_of r) as [|dl| |]; try reflexivity.
+  - destruct (rt_abort r || negb (rt_overlap r) || Nat.eqb (rt_sessions r) 0);
+      rewrite upd_app_len; reflexivity.
+  - destruct (rt_cancelled r || rt_idle r || match dl with Some t => (t <=? no)%N | None => false end);
+      [rewrite upd_app_len|]; reflexivity.
+  - rewrite upd_app_len. reflexivity.
+Qed.
+
+Lemma adv_rec T pe ac re su un no qu pr si wp ho mp prt dn rl tr rts nr k :
+  step T (Build_state pe ac re su un no qu pr si wp ho mp prt dn rl false tr rts nr) (AAdvance k) =
+  Build_state pe ac re su un (no + k)%N qu pr si wp ho mp prt dn rl false tr rts nr.
+Proof. reflexivity. Qed.
+
+Definition ret_fin (d : nat) (s0 st : state) : Prop :=
+  nth d (dones st) false = true /\ exited st = false /\ releasers st = releasers s0.
+
+Ltac ret_go Harm Ek :=
+  repeat (first [rewrite ret_step_rec | rewrite adv_rec];
+          cbn [rt_pc_of rt_abort rt_overlap rt_budget rt_sessions rt_idle rt_cancelled set_rt_pc];
+          rewrite ?Harm, ?Ek, ?orb_true_r;
+          try match goal with |- context [if ?c then _ else _] => destruct c end).
+
+Ltac ret_end Hlt :=
+  unfold ret_fin; cbn [dones exited releasers];
+  split; [first [apply nth_upd_same; exact Hlt | auto] | split; reflexivity].
+
+Lemma retire_schedule_done T s d r k :
+  tables_ok T = true -> R T s -> exited s = false -> nth_error (rets s) d = Some r ->
+  (Z.to_N (rt_budget r) <= k)%N ->
+  ret_fin d s (run_from T s (retire_schedule d k)).
+Proof.
+  intros HT [H1 H2] Hex E Hk.
+  assert (Hr : rt_ok T (now s) r).
+  { rewrite Forall_forall in H2. apply H2. eapply nth_error_In; eassumption. }
+  destruct Hr as (B1 & B2 & B3).
+  destruct (Forall2_nth _ _ _ _ _ H1 E) as (b0 & Eb & Hb).
+  pose proof (nth_error_some_lt _ _ _ Eb) as Hlt.
+  pose proof (nth_of_nth_error _ _ _ false Eb) as Hn.
+  pose proof (timer_armed_total _ _ (tables_guard T HT) (proj1 B1)) as Harm.
+  apply nth_split in E. destruct E as (l1 & l2 & E1 & E2).
+  destruct s as [pe ac re su un no qu pr si wp ho mp prt dn rl ex tr rts nr].
+  simpl in *. subst rts d ex. clear H1 H2 Eb.
+  destruct r as [pc ab ov B se idl can]. simpl in *.
+  unfold run_from, retire_schedule. cbn [fold_left].
+  assert (Ek1 : (no + Z.to_N B <=? no + k)%N = true) by (apply N.leb_le; lia).
+  destruct pc as [|[dl|]| |].
+  - ret_go Harm Ek1; ret_end Hlt.
+  - assert (Ek2 : (dl <=? no + k)%N = true).
+    { apply N.leb_le. specialize (B3 dl eq_refl). lia. }
+    ret_go Harm Ek2; ret_end Hlt.
+  - congruence.
+  - ret_go Harm Ek1; ret_end Hlt.
+  - ret_go Harm Ek1. unfold ret_fin; cbn [dones exited releasers].
+    split; [rewrite Hn; apply Hb; reflexivity | split; reflexivity].
+Qed.
+
+Lemma C20_retirement_terminates_proof :
+  forall (T : tables) (sched : list action) (d : nat) (r : retirement) (k : N), tables_ok T = true ->
+    let s := run T sched in
+    exited s = false -> nth_error (rets s) d = Some r ->
+    (0 <= rt_budget r <= Z.max 0 (t_budget_total T))%Z /\
+    rt_pc_of r <> RtWait None /\
+    (forall dl, rt_pc_of r = RtWait (Some dl) -> (dl <= now s + Z.to_N (rt_budget r))%N) /\
+    ((Z.to_N (rt_budget r) <= k)%N ->
+       let s' := run_from T s (retire_schedule d k) in
+       nth d (dones s') false = true /\ exited s' = false).
+Proof.
+  intros T sched d r k HT s Hex E.
+  assert (HR : R T s) by (apply run_from_R; [exact HT | apply init_R]).
+  assert (Hr : rt_ok T (now s) r).
+  { destruct HR as [_ H2]. rewrite Forall_forall in H2. apply H2. eapply nth_error_In; eassumption. }
+  destruct Hr as (B1 & B2 & B3).
+  split; [exact B1|]. split; [exact B2|]. split; [exact B3|].
+  intros Hk s'. destruct (retire_schedule_done T s d r k HT HR Hex E Hk) as (F1 & F2 & _).
+  split; assumption.
+Qed.
+
+(* release goroutine x: one step *)
+Lemma rel_clear_step T s x p ps :
+  exited s = false -> nth_error (releasers s) x = Some (RRun (p :: ps)) -> is_clear p = true ->
+  let s' := step T s (AReleaser x) in
+  nth_error (releasers s') x = Some (RRun ps) /\ exited s' = false /\
+  (p = PStorePendingFalse -> pending s' = false) /\ (p <> PStorePendingFalse -> pending s' = pending s).
+Proof.
+  intros Hex E Hp. unfold step, rel_step. rewrite Hex, E. unfold prog_step.
+  pose proof (upd_nth_same _ _ (RRun ps) _ E) as Hu.
+  destruct s as [pe ac re su un no qu pr si wp ho mp prt dn rl ex tr rts nr]. simpl in *.
+  destruct p; try discriminate Hp; simpl; unfold end_supp; simpl;
+    try (destruct su as [|su]; [|destruct (Nat.eqb su 0)]);
+    try (destruct (fst pr)); simpl;
+    (split; [exact Hu|]); (split; [exact Hex|]); split; intro X; try reflexivity; try discriminate X; congruence.
+Qed.
+
+Lemma C20_retirement_releases_proof :
+  forall (T : tables) (sched : list action) (x d : nat) (r : retirement) (k : N), tables_ok T = true ->
+    let s := run T sched in
+    exited s = false -> nth_error (releasers s) x = Some (RWait d) -> nth_error (rets s) d = Some r ->
+    (Z.to_N (rt_budget r) <= k)%N ->
+    let s' := run_from T s (retire_schedule d k ++ [AReleaser x; AReleaser x; AReleaser x; AReleaser x]) in
+    pending s' = false /\ nth_error (releasers s') x = Some (RRun []) /\ supp s' = mute_owed s'.
+Proof.
+  intros T sched x d r k HT s Hex Ex Er Hk s'.
+  assert (HR : R T s) by (apply run_from_R; [exact HT | apply init_R]).
+  destruct (retire_schedule_done T s d r k HT HR Hex Er Hk) as (F1 & F2 & F3).
+  assert (HI : Inv s') by (apply run_from_inv; [exact HT | apply run_inv; exact HT]).
+  subst s'. rewrite run_from_app in *.
+  set (s1 := run_from T s (retire_schedule d k)) in *.
+  rewrite <- F3 in Ex.
+  change (run_from T s1 [AReleaser x; AReleaser x; AReleaser x; AReleaser x])
+    with (step T (step T (step T (step T s1 (AReleaser x)) (AReleaser x)) (AReleaser x)) (AReleaser x)) in *.
+  (* first release step: the wait is over *)
+  assert (E2 : step T s1 (AReleaser x) = set_releasers (upd (releasers s1) x (RRun clear_pending_prims)) s1).
+  { unfold step, rel_step. rewrite F2, Ex, F1. reflexivity. }
+  rewrite E2 in *.
+  set (s2 := set_releasers (upd (releasers s1) x (RRun clear_pending_prims)) s1) in *.
+  assert (X2 : nth_error (releasers s2) x = Some (RRun clear_pending_prims)).
+  { simpl. eapply upd_nth_same; exact Ex. }
+  assert (Hex2 : exited s2 = false) by exact F2.
+  destruct (rel_clear_step T s2 x _ _ Hex2 X2 eq_refl) as (X3 & Hex3 & P3 & _).
+  set (s3 := step T s2 (AReleaser x)) in *.
+  destruct (rel_clear_step T s3 x _ _ Hex3 X3 eq_refl) as (X4 & Hex4 & _ & P4).
+  set (s4 := step T s3 (AReleaser x)) in *.
+  destruct (rel_clear_step T s4 x _ _ Hex4 X4 eq_refl) as (X5 & Hex5 & _ & P5).
+  set (s5 := step T s4 (AReleaser x)) in *.
+  split; [|split].
+  - rewrite P5, P4, P3; [reflexivity | reflexivity | discriminate | discriminate].
+  - exact X5.
+  - destruct HI as [_ C]. exact (ci_mute _ (C Hex5)).
+Qed.
+
 (* ------------------------------------------------------------------ a busy report implies a refusal
    (additional invariant, not used by the theorems above) *)
 Definition Rf (s : state) : Prop := 1 <= count_ev is_refuse (trace s).
@@ -833,7 +1258,7 @@ Lemma exec_prim_K2 T s p s' pre :
   K2 s' /\ existsb is_pbusy pre = false /\ w_prog s' = w_prog s /\ m_prog s' = m_prog s.
 Proof.
   intros [K1 K3] Hb E. unfold K2, Rf in *.
-  destruct s as [pe ac re su un no qu pr si wp ho mp prt dn rl ex tr]. simpl in *.
+  destruct s as [pe ac re su un no qu pr si wp ho mp prt dn rl ex tr rts nr]. simpl in *.
   destruct p as [b|b| | | |c| | | | | | | ]; simpl in E; unfold end_supp in E; simpl in E;
     try (destruct c; try discriminate Hb);
     try (match type of E with context [fst pr] => destruct (fst pr) eqn:Epr end);
@@ -880,7 +1305,7 @@ Proof.
   unfold sig_step. destruct (nth_error (sigs s) i) as [pc|] eqn:E; [|exact Keep].
   apply nth_split in E. destruct E as (l1 & l2 & E1 & E2).
   unfold K, K2, Rf in *.
-  destruct s as [pe ac re su un no qu pr si wp ho mp prt dn rl ex tr]. simpl in *. subst si i.
+  destruct s as [pe ac re su un no qu pr si wp ho mp prt dn rl ex tr rts nr]. simpl in *. subst si i.
   rewrite forallb_app in Hj. rewrite existsb_app in K1. simpl in Hj, K1.
   destruct pc as [b|b|b| | |f| | ]; try destruct f; simpl in *;
     rewrite ?andb_false_r in Hj; try discriminate Hj;
@@ -896,7 +1321,7 @@ Lemma K_step T s a : tables_ok T = true -> Inv s -> K s -> K (step T s a).
 Proof.
   intros HT [H C] HK. unfold step. destruct (exited s) eqn:Hex; [exact HK|].
   specialize (C eq_refl).
-  destruct a as [b|i|k| |k| |d|r| ].
+  destruct a as [b|i|k| |k| |d|p|d|n|r| ].
   - destruct HK as [[K1 K3] [Kw Km]]. unfold K, K2, Rf in *. simpl.
     rewrite existsb_app. simpl. rewrite !orb_false_r. repeat split; assumption.
   - apply sig_step_K; assumption.
@@ -922,6 +1347,9 @@ Proof.
     apply orb_false_iff in Km. destruct Km as [Kp Kps].
     destruct (exec_prim_K2 T s p s' pre HK2 Kp E) as (A & B & D & _).
     unfold K, K2, Rf in *. simpl. rewrite existsb_app, B, Kps, D. repeat split; try apply A; assumption.
+  - ret_cases; exact HK.
+  - exact HK.
+  - destruct (nth_error (rets s) d); exact HK.
   - exact HK.
   - unfold rel_step. destruct (nth_error (releasers s) r) as [[d0|[|p ps]]|] eqn:E; try exact HK.
     + destruct (nth d0 (dones s) false); exact HK.
@@ -1011,27 +1439,27 @@ Proof.
     rewrite (upd_app_len l _ [] _); reflexivity.
 Qed.
 
-Lemma sig_last_rec T pe ac re su un no qu pr l pc wp ho mp prt dn rl ex tr :
-  sig_step T (Build_state pe ac re su un no qu pr (l ++ [pc]) wp ho mp prt dn rl ex tr) (length l) =
+Lemma sig_last_rec T pe ac re su un no qu pr l pc wp ho mp prt dn rl ex tr rts nr :
+  sig_step T (Build_state pe ac re su un no qu pr (l ++ [pc]) wp ho mp prt dn rl ex tr rts nr) (length l) =
   match pc with
-  | S0 b => if pe then Build_state pe ac re su un no qu pr (l ++ [S5 false]) wp ho mp prt dn rl ex (EvRefuse :: tr)
-            else Build_state true ac re su un no qu pr (l ++ [S1 b]) wp ho mp prt dn rl ex (EvAccept :: tr)
-  | S1 b => Build_state pe ac re (S su) un no qu pr (l ++ [S2 b]) wp ho mp prt dn rl ex (EvMute :: tr)
+  | S0 b => if pe then Build_state pe ac re su un no qu pr (l ++ [S5 false]) wp ho mp prt dn rl ex (EvRefuse :: tr) rts nr
+            else Build_state true ac re su un no qu pr (l ++ [S1 b]) wp ho mp prt dn rl ex (EvAccept :: tr) rts nr
+  | S1 b => Build_state pe ac re (S su) un no qu pr (l ++ [S2 b]) wp ho mp prt dn rl ex (EvMute :: tr) rts nr
   | S2 b => if Nat.ltb (length qu) (t_cap T)
-            then Build_state pe ac re su un no (qu ++ [b]) pr (l ++ [SAccepted]) wp ho mp prt dn rl ex tr
-            else Build_state pe ac re su un no qu pr (l ++ [S3]) wp ho mp prt dn rl ex (EvRefuse :: tr)
-  | S3 => Build_state false ac re su un no qu pr (l ++ [S4]) wp ho mp prt dn rl ex (EvRelease :: tr)
+            then Build_state pe ac re su un no (qu ++ [b]) pr (l ++ [SAccepted]) wp ho mp prt dn rl ex tr rts nr
+            else Build_state pe ac re su un no qu pr (l ++ [S3]) wp ho mp prt dn rl ex (EvRefuse :: tr) rts nr
+  | S3 => Build_state false ac re su un no qu pr (l ++ [S4]) wp ho mp prt dn rl ex (EvRelease :: tr) rts nr
   | S4 => match su with
-          | O => Build_state pe ac re su un no qu pr (l ++ [S5 true]) wp ho mp prt dn rl ex tr
+          | O => Build_state pe ac re su un no qu pr (l ++ [S5 true]) wp ho mp prt dn rl ex tr rts nr
           | S n => if Nat.eqb n 0
-                   then Build_state pe ac re n (no + t_quiesce T)%N no qu pr (l ++ [S5 true]) wp ho mp prt dn rl ex (EvUnmute :: tr)
-                   else Build_state pe ac re n un no qu pr (l ++ [S5 true]) wp ho mp prt dn rl ex (EvUnmute :: tr)
+                   then Build_state pe ac re n (no + t_quiesce T)%N no qu pr (l ++ [S5 true]) wp ho mp prt dn rl ex (EvUnmute :: tr) rts nr
+                   else Build_state pe ac re n un no qu pr (l ++ [S5 true]) wp ho mp prt dn rl ex (EvUnmute :: tr) rts nr
           end
-  | S5 f => Build_state pe ac re su un no qu (CBusy, busy_msg f ac) (l ++ [SRefused]) wp ho mp prt dn rl ex tr
-  | SAccepted | SRefused => Build_state pe ac re su un no qu pr (l ++ [pc]) wp ho mp prt dn rl ex tr
+  | S5 f => Build_state pe ac re su un no qu (CBusy, busy_msg f ac) (l ++ [SRefused]) wp ho mp prt dn rl ex tr rts nr
+  | SAccepted | SRefused => Build_state pe ac re su un no qu pr (l ++ [pc]) wp ho mp prt dn rl ex tr rts nr
   end.
 Proof.
-  rewrite (sig_last T (Build_state pe ac re su un no qu pr (l ++ [pc]) wp ho mp prt dn rl ex tr) l pc eq_refl).
+  rewrite (sig_last T (Build_state pe ac re su un no qu pr (l ++ [pc]) wp ho mp prt dn rl ex tr rts nr) l pc eq_refl).
   destruct pc; try reflexivity.
   unfold end_supp. simpl. destruct su as [|n]; [reflexivity|]. destruct (Nat.eqb n 0); reflexivity.
 Qed.
@@ -1050,10 +1478,10 @@ Lemma six_steps_answered T s b :
        (set_sigs (sigs s ++ [S0 b]) s)).
 Proof.
   cbn [fold_left].
-  destruct s as [pe ac re su un no qu pr si wp ho mp prt dn rl ex tr].
-  change (set_sigs (sigs (Build_state pe ac re su un no qu pr si wp ho mp prt dn rl ex tr) ++ [S0 b])
-            (Build_state pe ac re su un no qu pr si wp ho mp prt dn rl ex tr))
-    with (Build_state pe ac re su un no qu pr (si ++ [S0 b]) wp ho mp prt dn rl ex tr).
+  destruct s as [pe ac re su un no qu pr si wp ho mp prt dn rl ex tr rts nr].
+  change (set_sigs (sigs (Build_state pe ac re su un no qu pr si wp ho mp prt dn rl ex tr rts nr) ++ [S0 b])
+            (Build_state pe ac re su un no qu pr si wp ho mp prt dn rl ex tr rts nr))
+    with (Build_state pe ac re su un no qu pr (si ++ [S0 b]) wp ho mp prt dn rl ex tr rts nr).
   cbn [sigs].
   destruct pe; repeat (sig_go T); unfold answered; cbn [sigs progress fst]; rewrite nth_error_mid; auto.
 Qed.
